@@ -879,6 +879,23 @@ class State:
                 nexts.append(x)
         if nexts and breaks_all_cycles(nexts):
             return True, "L-iter: every iteration takes the next item of a finite in-memory iterator / serde access"
+        # L-iter (conditional form): `while let Some(x) = it.next_if(pred)` — an item is consumed exactly when the answer is Some,
+        # and the loop is left on None
+        br = self.br(b)
+        cond_nexts = []
+        for x in cyc:
+            t = b.blocks[x]["term"]
+            if t["k"] == "call" and re.search(r"Peekable::<I>::next_if(_eq)?$", t["callee"]) and t.get("t") is not None:
+                ve = br.variant_edges(t["t"])
+                if ve and ve["adt"] == "std::option::Option":
+                    none_t = ve["edges"].get("None", ve["otherwise"])
+                    # the None answer must not lead back into the cycle
+                    if not (reach_avoiding(b, none_t) & cs) or none_t not in cs:
+                        inside_after_none = {y for y in reach_avoiding(b, none_t, avoid_blocks=[x]) if y in cs}
+                        if x not in reach_avoiding(b, none_t):
+                            cond_nexts.append(x)
+        if cond_nexts and breaks_all_cycles(cond_nexts):
+            return True, "L-iter: every iteration consumes the next item of a peekable in-memory iterator (next_if answered Some); None leaves the loop"
         # L-parser: consumes a token on every cycle
         cons = [x for x in cyc if b.blocks[x]["term"]["k"] == "call" and b.blocks[x]["term"]["callee"] in consumes]
         if cons and breaks_all_cycles(cons):
